@@ -40,7 +40,7 @@ class Box:
     def __init__(self, tag="box"):
         self.root = os.path.join(pipeline.tmpdir(), f"{tag}-{os.getpid()}-{id(self) & 0xffff}")
         shutil.rmtree(self.root, ignore_errors=True)
-        for d in ("work", "home", "cfg"):
+        for d in ("work", "home", "cfg", "stale-pwd"):
             os.makedirs(os.path.join(self.root, d))
 
     def path(self, *p):
@@ -73,7 +73,12 @@ class Box:
         elif os.path.exists(ucfg):
             os.remove(ucfg)
         saved_env = dict(os.environ)
-        os.environ.update({"CMINXDIR": cfgdir, "HOME": self.path("home"), "XDG_CONFIG_HOME": self.path("home", ".config")})
+        # PWD is an input, too: a shell would keep it equal to the working directory, a process started with cwd=... or
+        # after os.chdir() does not.  It points at a decoy directory inside the sandbox (so that anything resolved against
+        # it is seen by the snapshots and never lands in the harness's own directory).
+        decoy = self.path("stale-pwd")
+        os.environ.update({"CMINXDIR": cfgdir, "HOME": self.path("home"), "XDG_CONFIG_HOME": self.path("home", ".config"),
+                           "PWD": decoy, "OLDPWD": decoy})
         if env:
             os.environ.update(env)
         saved_cwd = os.getcwd()
